@@ -434,6 +434,29 @@ func L2ResultStatus() []MethodCase {
 			out = append(out, MethodCase{M: m2})
 		}
 	}
+	// two success responses selected by a tag, every ordered pair of response SHAPES (what one
+	// response does with the body must not leak into the next)
+	shapes := []struct {
+		name string
+		r    Resp
+	}{
+		{"attr-body", Resp{Body: "attr:summary", Headers: []Map{{"kind", "X-Kind"}, {"etag", "ETag"}}}},
+		{"default-body", Resp{}},
+		{"header+default-body", Resp{Headers: []Map{{"etag", "ETag"}}}},
+		{"empty-body", Resp{Body: "empty", Headers: []Map{{"kind", "X-Kind"}, {"etag", "ETag"}}}},
+	}
+	for _, first := range shapes {
+		for _, second := range shapes {
+			kind := A("kind", WithV(P(KString), &Valid{Enum: []any{"created", "other"}}))
+			m := ResultMethod(next(), []attrAt{{kind, LocBody, true}, {A("summary", P(KString)), LocBody, false}, {A("val", P(KInt)), LocBody, false}, {A("etag", P(KString)), LocBody, false}}, 200)
+			r1, r2 := first.r, second.r
+			r1.Status, r1.Tag = 201, &TagSel{"kind", "created"}
+			r2.Status = 200
+			m.HTTP.Responses = []Resp{r1, r2}
+			m.Feat = map[string]string{"family": "L2-tags", "tag-attr": "required", "shapes": first.name + ">" + second.name}
+			out = append(out, MethodCase{M: m})
+		}
+	}
 	return out
 }
 
